@@ -9,6 +9,7 @@
   then about the code's own configuration.
 -/
 import PsutilModel.Proofs.C12Front
+import PsutilModel.Proofs.C12Round3
 import PsutilModel.Proofs.C12Shapes
 import PsutilModel.Proofs.C12AsFound
 import PsutilModel.Model.C12Gen
@@ -29,6 +30,37 @@ theorem cfg_except_clauses :
     ∧ handledWith Gen.C12.exeNativeClauses "guess" = [.accessDenied]
     ∧ handledWith Gen.C12.exeGuessClauses "pass" = [.accessDenied]
     ∧ allExc.filter (catches Gen.C12.guessReraiseClass) = [.accessDenied] := by decide
+
+/-- **cfg_block_cached_sources.** What a `oneshot()` block may answer from its cache, as the translator finds it
+    in the source (the `@memoize_when_activated` methods and what `oneshot_enter` / `Process.oneshot` activate):
+    none of the methods whose answers this property is about — `cmdline`, `environ`, `exe`, `cwd`, `name`,
+    `terminal`, `username`, the helpers `_readlink`, `_is_zombie`, `_raise_if_zombie` — is block-cached, on either
+    layer; the two sources the model's `Block` holds (`_parse_stat_file`: name + tty_nr; `_read_status_file` and
+    the front end's `uids`: real uid) are memoised AND activated. This is the assumption under which
+    `C12_oneshot_same_answers` describes the real code ("everything else reads as it does NOW"). -/
+theorem cfg_block_cached_sources :
+    (∀ m ∈ ["cmdline", "environ", "exe", "cwd", "name", "terminal", "_readlink", "_is_zombie", "_raise_if_zombie"],
+        m ∉ Gen.C12.linuxMemoized ∧ m ∉ Gen.C12.linuxOneshotEnter)
+    ∧ (∀ m ∈ ["cmdline", "environ", "exe", "cwd", "name", "terminal", "username"],
+        m ∉ Gen.C12.frontMemoized ∧ m ∉ Gen.C12.frontOneshotActivates)
+    ∧ (∀ m ∈ ["_parse_stat_file", "_read_status_file"],
+        m ∈ Gen.C12.linuxMemoized ∧ m ∈ Gen.C12.linuxOneshotEnter)
+    ∧ "uids" ∈ Gen.C12.frontMemoized ∧ "uids" ∈ Gen.C12.frontOneshotActivates := by decide
+
+/-- **cfg_gone_test.** `wrap_exceptions` tells "the process is gone" (NoSuchProcess instead of a bare
+    FileNotFoundError) by testing `/proc/<pid>/stat` — not the directory, which outlives its files (#2418) —
+    and consults the zombie test first, for ESRCH as well as for ENOENT. The model's `wrap` is written for
+    exactly this shape (`statThere`, `C12_vanishing_process`). -/
+theorem cfg_gone_test :
+    Gen.C12.wrapGoneTest = "/stat"
+    ∧ Gen.C12.wrapZombieFirst = ["FileNotFoundError", "ProcessLookupError"] := by decide
+
+/-- **cfg_zombie_parser.** `_is_zombie` reads the state letter with its own parser of `stat`: the byte at
+    offset 2 after the LAST `)` (a name may contain `)` followed by anything), compared with `Z`. The model's
+    `zombie` flag means exactly that byte (correspondence: `exh-paren`, family `paren_comm`). -/
+theorem cfg_zombie_parser :
+    Gen.C12.isZombieLastParen = true ∧ Gen.C12.isZombieStateWindow = (2, 3)
+    ∧ Gen.C12.isZombieLetter = [90] := by decide
 
 /-- **C12_except_clause_order_matters.** Why the clauses are facts and not only their union: with
     `except NoSuchProcess: raise` placed BEFORE `except (AccessDenied, ZombieProcess): pass` (ZombieProcess is
@@ -53,13 +85,13 @@ theorem C12_except_clause_order_matters :
     it is a single piece containing a space, which is split on spaces; not NUL-terminated →
     split on spaces after ignoring one trailing space. -/
 theorem C12_cmdline_spec (w : World) (d : Bytes) (hd : w.dirExists = true)
-    (hc : w.cmdline = .data d) : cmdline cfg w = Spec.cmdlineOf w.zombie d := by
+    (hc : w.cmdline = .data d) : cmdline cfg w = Spec.cmdlineOf (Spec.zombie w) d := by
   rw [cfg_good]; exact cmdline_data w d hd hc
 
 /-- **C12_cmdline_zombie.** The empty cmdline of a zombie is reported as ZombieProcess, the
     empty cmdline of a live process as `[]`. -/
 theorem C12_cmdline_zombie (w : World) (hd : w.dirExists = true) (hc : w.cmdline = .data []) :
-    cmdline cfg w = if w.zombie then .error .zombieProcess else .ok [] := by
+    cmdline cfg w = if Spec.zombie w then .error .zombieProcess else .ok [] := by
   rw [C12_cmdline_spec w [] hd hc]; rfl
 
 /-- **C12_cmdline_roundtrip.** Whatever argument vector the kernel lays out (any number of
@@ -134,6 +166,23 @@ theorem C12_cmdline_padded_title (w : World) (t : Bytes) (hd : w.dirExists = tru
   · intro hc
     rw [C12_cmdline_spec w _ hd hc]
     by_cases h32 : 32 ∈ t <;> simp [Spec.cmdlineOf, args, ht, h32]
+
+/-- **C12_padded_title_is_an_argv.** Why the padded title above is NOT a case of the statement's second rule:
+    `title NUL^(k+2)` is, byte for byte, what the kernel writes for the argument vector `title, "", …, ""`
+    (k+1 empty strings), so the FIRST rule ("NUL-separated with empty arguments preserved") already fixes the
+    answer — and it is the one `C12_cmdline_roundtrip` promises for that vector. (Integrator decision, round
+    3: kept as a characterisation; the second rule is read as "the file has no NUL separator".) -/
+theorem C12_padded_title_is_an_argv (w : World) (t : Bytes) (k : Nat) (hd : w.dirExists = true) (ht : 0 ∉ t)
+    (hc : w.cmdline = .data (t ++ List.replicate (k + 2) 0)) :
+    t ++ List.replicate (k + 2) 0 = renderArgv (t :: List.replicate (k + 1) [])
+    ∧ cmdline cfg w = .ok (t :: List.replicate (k + 1) []) := by
+  refine ⟨?_, (C12_cmdline_padded_title w t hd ht).1 k hc⟩
+  have : ∀ n, renderArgv (List.replicate n []) = List.replicate n 0 := by
+    intro n
+    induction n with
+    | zero => rfl
+    | succ n ih => simp [renderArgv, List.replicate_succ] at ih ⊢; exact ih
+  rw [renderArgv_cons, this, ← List.replicate_succ]
 
 /-- **C12_cmdline_setproctitle.** End to end for the nginx / sshd / postgres way of rewriting a title: the
     title `t` (no NUL) is written at `arg_start` over an argument area of `a` bytes followed by `e` bytes of
@@ -314,11 +363,11 @@ theorem C12_link_spec (w : World) (r : Res Bytes) :
 
 /-- **C12_link_withheld.** ENOENT or ESRCH on the link while `/proc/<pid>` exists: `''` for a
     live process, ZombieProcess for a zombie. -/
-theorem C12_link_withheld (w : World) (e : Err) (hd : w.dirExists = true) (he : e ≠ .eacces)
-    (hl : w.cwd = .err e) :
+theorem C12_link_withheld (w : World) (e : Err) (hd : w.dirExists = true) (hs : w.statExists = true)
+    (hr : w.statReadable = true) (he : e ≠ .eacces) (hl : w.cwd = .err e) :
     cwd cfg w = if w.zombie then .error .zombieProcess else .ok [] := by
   have : Spec.cwd w = some (if w.zombie then .error .zombieProcess else .ok []) := by
-    cases e <;> simp_all [Spec.cwd, Spec.link]
+    cases e <;> cases hz : w.zombie <;> simp_all [Spec.cwd, Spec.link, Spec.zombie]
   exact (C12_link_spec w _).1 this
 
 /-! ## exe() front end -/
@@ -349,9 +398,8 @@ theorem C12_exe_cached (v : Bytes) (ws : List World) (w : World) :
   `nat` is what the platform layer answers (`procExe`), `cl` what `cmdline()` answers; the
   branches are those of the docstring/comments of `psutil.Process.exe()`. -/
 
-/-- "is `a0` an absolute path to an executable regular file" as the property says it -/
-def Guessable (w : World) (a0 : Bytes) : Prop :=
-  a0.head? = some 47 ∧ 0 ∉ a0 ∧ w.fs a0 = .file true
+-- `Guessable w a0` ("`a0` is an absolute path to an executable regular file", as the property says it) is
+-- defined in Proofs/C12Round3.lean: `a0.head? = some 47 ∧ 0 ∉ a0 ∧ w.fs a0 = .file true`.
 
 /-- **branch 1: native answer.** A non-empty native answer is returned and remembered;
     `cmdline()` is not consulted. -/
@@ -452,15 +500,16 @@ theorem C12_exe_eacces_link (w : World) (hd : w.dirExists = true) (hl : w.exe = 
 /-- **C12_cwd_exe_zombie.** A zombie has no cwd / exe: when the kernel withholds the link
     (ENOENT/ESRCH) both raise ZombieProcess — never `''`, and `exe()` does not try to guess —
     and nothing is remembered. -/
-theorem C12_cwd_exe_zombie (w : World) (hd : w.dirExists = true) (hz : w.zombie = true) :
+theorem C12_cwd_exe_zombie (w : World) (hd : w.dirExists = true) (hs : w.statExists = true)
+    (hr : w.statReadable = true) (hz : w.zombie = true) :
     (∀ e, e ≠ .eacces → w.cwd = .err e → cwd cfg w = .error .zombieProcess)
     ∧ (∀ e, e ≠ .eacces → w.exe = .err e → exe cfg w ⟨none⟩ = (⟨none⟩, .error .zombieProcess)) := by
   constructor
   · intro e he hl
-    rw [C12_link_withheld w e hd he hl, hz]; rfl
+    rw [C12_link_withheld w e hd hs hr he hl, hz]; rfl
   · intro e he hl
     have hlink : Spec.link w w.exe = some (.error .zombieProcess) := by
-      cases e <;> simp_all [Spec.link]
+      cases e <;> simp_all [Spec.link, Spec.zombie]
     have := C12_exe_fallback w (.error .zombieProcess) false (by simp [Spec.exeOnce, hlink])
     simpa [remembered] using this
 
@@ -474,18 +523,19 @@ theorem C12_name_rule (w : World) (r : Res Bytes) (h : Spec.name w = some r) : n
 
 /-- the rule in closed form for a readable, non-empty cmdline -/
 theorem C12_name_rule_explicit (w : World) (d : Bytes) (a0 : Bytes) (rest : List Bytes)
-    (hd : w.dirExists = true) (hc : w.cmdline = .data d)
-    (ha : Spec.cmdlineOf w.zombie d = .ok (a0 :: rest)) :
+    (hd : w.dirExists = true) (hs : w.statExists = true) (hr : w.statReadable = true)
+    (hc : w.cmdline = .data d) (ha : Spec.cmdlineOf w.zombie d = .ok (a0 :: rest)) :
     name cfg w = .ok (if 15 ≤ w.comm.length ∧ w.comm.isPrefixOf (base a0) then base a0 else w.comm) := by
   apply C12_name_rule
+  have hz : Spec.zombie w = w.zombie := by simp [Spec.zombie, hs, hr]
   unfold Spec.name
   by_cases hl : w.comm.length < commMax
   · have : ¬ 15 ≤ w.comm.length := by unfold commMax at hl; omega
-    simp [hd, hl, this]
+    simp [hd, hs, hr, hl, this]
   · have h15 : 15 ≤ w.comm.length := by unfold commMax at hl; omega
     have hl' : ¬ w.comm.length < 15 := by omega
-    have hsc : Spec.cmdline w = some (.ok (a0 :: rest)) := by simp [Spec.cmdline, hd, hc, ha]
-    simp [hd, hsc, nameRule, commMax, hl', h15]
+    have hsc : Spec.cmdline w = some (.ok (a0 :: rest)) := by simp [Spec.cmdline, hd, hc, hz, ha]
+    simp [hd, hs, hr, hsc, nameRule, commMax, hl', h15]
 
 /-- `base` is "what follows the last slash" -/
 theorem C12_base_characterised (dir b : Bytes) (hb : 47 ∉ b) :
@@ -507,40 +557,42 @@ def nameOnError (comm : Bytes) : Exc → Res Bytes
     longer one AccessDenied and ZombieProcess are swallowed and the kernel's name is returned,
     any other error (the process is gone) propagates. -/
 theorem C12_name_when_cmdline_raises (w : World) (e : Exc) (hd : w.dirExists = true)
-    (h : cmdline cfg w = .error e) :
+    (hs : w.statExists = true) (hr : w.statReadable = true) (h : cmdline cfg w = .error e) :
     name cfg w = if w.comm.length < 15 then .ok w.comm else nameOnError w.comm e := by
   rw [cfg_good] at h ⊢
   by_cases hl : w.comm.length < 15
   · have : ¬ 15 ≤ w.comm.length := by omega
-    simp [name, procName, hd, nameLen_good, nameMinLen_good, this, hl]
+    simp [name, procName_eq, hd, hs, hr, nameLen_good, nameMinLen_good, this, hl]
   · have h15 : 15 ≤ w.comm.length := by omega
-    cases e <;> simp [name, procName, hd, nameLen_good, nameMinLen_good, h15, hl, h, nameOnError]
+    cases e <;> simp [name, procName_eq, hd, hs, hr, nameLen_good, nameMinLen_good, h15, hl, h, nameOnError]
 
 /-- **C12_name_zombie_or_denied.** A process whose cmdline cannot be had — EACCES on the file, or
     a zombie (empty file, or ANY error on it) — still has a name: the kernel's, of any length
     (15 bytes included), both by the specification and by the code. -/
 theorem C12_name_zombie_or_denied (w : World) (hd : w.dirExists = true)
+    (hs : w.statExists = true) (hr : w.statReadable = true)
     (h : w.cmdline = .err .eacces
           ∨ (w.zombie = true ∧ (w.cmdline = .data [] ∨ ∃ e, w.cmdline = .err e))) :
     Spec.name w = some (.ok w.comm) ∧ name cfg w = .ok w.comm := by
   have hs : Spec.name w = some (.ok w.comm) := by
     unfold Spec.name
     by_cases hl : w.comm.length < commMax
-    · simp [hd, hl]
+    · simp [hd, hs, hr, hl]
     · rcases h with h | ⟨hz, h | ⟨e, h⟩⟩
-      · simp [hd, hl, Spec.cmdline, h, fileErr]
-      · simp [hd, hl, Spec.cmdline, h, hz, cmdlineOf]
-      · cases e <;> simp [hd, hl, Spec.cmdline, h, hz, fileErr]
+      · simp [hd, hs, hr, hl, Spec.cmdline, h, fileErr]
+      · simp [hd, hs, hr, hl, Spec.cmdline, h, hz, cmdlineOf, Spec.zombie]
+      · cases e <;> simp [hd, hs, hr, hl, Spec.cmdline, h, hz, fileErr, Spec.zombie]
   exact ⟨hs, C12_name_rule w _ hs⟩
 
 /-- a live process whose cmdline file answers ESRCH has died in the meantime: a long name
     cannot be completed and NoSuchProcess propagates (it is NOT mistaken for a zombie) -/
-theorem C12_name_process_gone (w : World) (hd : w.dirExists = true) (hz : w.zombie = false)
+theorem C12_name_process_gone (w : World) (hd : w.dirExists = true) (hs : w.statExists = true)
+    (hr : w.statReadable = true) (hz : w.zombie = false)
     (hc : w.cmdline = .err .esrch) (h15 : 15 ≤ w.comm.length) :
     name cfg w = .error .noSuchProcess := by
   apply C12_name_rule
   have : ¬ w.comm.length < commMax := by unfold commMax; omega
-  simp [Spec.name, hd, this, Spec.cmdline, hc, fileErr, hz]
+  simp [Spec.name, hd, hs, hr, this, Spec.cmdline, hc, fileErr, hz, Spec.zombie]
 
 /-- **C12_file_errors.** OS errors on the cmdline / environ file itself while `/proc/<pid>`
     exists: EACCES → AccessDenied; ESRCH → NoSuchProcess, ZombieProcess for a zombie; ENOENT on
@@ -560,7 +612,8 @@ theorem C12_file_errors (w : World) (e : Err) (x : Exc) (hd : w.dirExists = true
 
 /-- **C12_identity_spec.** `username()` is the user-database name of the real uid (the uid in
     decimal when the database has none), `terminal()` the device whose number is `tty_nr` (or
-    `None`); NoSuchProcess once `/proc/<pid>` is gone. -/
+    `None`); NoSuchProcess once `/proc/<pid>` (for `terminal()`: its `stat`) is gone, AccessDenied when `stat`
+    cannot be read. -/
 theorem C12_identity_spec (w : World) :
     (∀ r, Spec.username w = some r → username w = r)
     ∧ (∀ r, Spec.terminal w = some r → terminal w = r) := by
@@ -570,24 +623,179 @@ theorem C12_identity_spec (w : World) :
     · simp [username, procUid, hd]
     · cases hu : w.users w.uid <;> simp [username, procUid, hd, hu]
   · intro r h
-    cases hd : w.dirExists <;> simp [Spec.terminal, hd] at h <;> rw [← h] <;>
-      simp [terminal, procTty, hd]
+    cases hd : w.dirExists <;> cases hs : w.statExists <;> cases hr : w.statReadable <;>
+      simp [Spec.terminal, hd, hs, hr] at h <;> rw [← h] <;> simp [terminal, procTty_eq, hd, hs, hr]
 
 /-- **C12_zombie_identity.** A zombie still has an owner and a controlling terminal: the two
-    calls never raise ZombieProcess, and answer exactly as for the same process alive. -/
+    calls never raise ZombieProcess, and answer exactly as for the same process alive. (A fact about the MODEL:
+    `username()` never consults the zombie test; `terminal()` reaches it only through `wrap_exceptions`, on an
+    error of `stat` itself, where `_is_zombie` cannot read `stat` either. That the real methods behave like
+    the model here rests on the correspondence — family `zombie_id`.) -/
 theorem C12_zombie_identity (w : World) :
     username { w with zombie := true } = username { w with zombie := false }
     ∧ terminal { w with zombie := true } = terminal { w with zombie := false }
     ∧ username w ≠ .error .zombieProcess ∧ terminal w ≠ .error .zombieProcess := by
-  refine ⟨rfl, rfl, ?_, ?_⟩
+  refine ⟨rfl, ?_, ?_, ?_⟩
+  · simp [terminal, procTty_eq]
   · cases hd : w.dirExists <;> cases hu : w.users w.uid <;> simp [username, procUid, hd, hu]
-  · cases hd : w.dirExists <;> simp [terminal, procTty, hd]
+  · cases hd : w.dirExists <;> cases hs : w.statExists <;> cases hr : w.statReadable <;>
+      simp [terminal, procTty_eq, hd, hs, hr]
+
+/-! ## branch-free invariants of exe() / cwd() (no specification of the error arms involved)
+
+  The closed-form theorems above compare the model with `Spec.exeOnce` / `Spec.link`, whose error arms are a
+  second transcription of the front end (see the header of Spec/C12.lean). The statements below are about the
+  WORLD only: whatever path the code took, these hold. -/
+
+/-- **C12_exe_result_invariant.** Whatever one uncached `exe()` returns as a string is one of exactly three
+    things: (1) the documented clean-up of the readable link target (non-empty); (2) `argv[0]` of the readable,
+    non-empty cmdline file, being an absolute path to an executable regular file; (3) `''` — and then the link
+    was withheld (ENOENT/ESRCH) from a process that is not a known zombie, or its target cleans up to nothing.
+    Never anything else, and never for a process whose `/proc/<pid>` is gone. -/
+theorem C12_exe_result_invariant (w : World) (p : Bytes) (h : (exe cfg w ⟨none⟩).2 = .ok p) :
+    w.dirExists = true ∧
+    ((p ≠ [] ∧ ∃ t, w.exe = .target t ∧ linkClean w.fs t = some p)
+     ∨ GuessedFromCmdline w p
+     ∨ (p = [] ∧ ((∃ t, w.exe = .target t ∧ linkClean w.fs t = some [])
+                  ∨ (∃ e, w.exe = .err e ∧ e ≠ .eacces ∧ Spec.zombie w = false)))) := by
+  rw [cfg_good] at h
+  rcases exe_ok_inv w p h with ⟨hne, hp⟩ | hg | ⟨hnil, hp⟩
+  · obtain ⟨hd, hx⟩ := procExe_ok_inv w w.exe p hp
+    refine ⟨hd, Or.inl ⟨hne, ?_⟩⟩
+    rcases hx with hx | ⟨e, _, _, _, hx⟩
+    · exact hx
+    · exact absurd hx hne
+  · exact ⟨hg.1, Or.inr (Or.inl hg)⟩
+  · subst hnil
+    obtain ⟨hd, hx⟩ := procExe_ok_inv w w.exe [] hp
+    refine ⟨hd, Or.inr (Or.inr ⟨rfl, ?_⟩)⟩
+    rcases hx with hx | ⟨e, he, hne, hz, _⟩
+    · exact Or.inl hx
+    · exact Or.inr ⟨e, he, hne, hz⟩
+
+/-- **C12_exe_remembers_only_what_it_returned.** For EVERY configuration, world and object state: if the object
+    remembers `v` after an `exe()` call, that call returned `v` — nothing is ever remembered on the side. -/
+theorem C12_exe_remembers_only_what_it_returned (c : Cfg) (w : World) (st : St) (v : Bytes)
+    (h : (exe c w st).1.exeCache = some v) : (exe c w st).2 = .ok v := by
+  rcases exe_remembers_returned c w st v h with h' | h'
+  · exact h'
+  · obtain ⟨cache⟩ := st
+    simp only at h'
+    subst h'
+    rfl
+
+/-- **C12_exe_denied_never_remembered.** While `readlink(/proc/<pid>/exe)` answers EACCES, nothing is
+    remembered — whatever the cmdline file says, guess or no guess — so a later call asks the kernel again. -/
+theorem C12_exe_denied_never_remembered (w : World) (hl : w.exe = .err .eacces) :
+    (exe cfg w ⟨none⟩).1 = ⟨none⟩ := by
+  rw [cfg_good]
+  cases hd : w.dirExists with
+  | false =>
+    have : procExe good w = .error .noSuchProcess := by
+      simp [procExe, readlinkRaw, effLink, hd, wrap, isZombie_gone w hd, statThere_gone w hd]
+    simp [exe, this]
+  | true =>
+    have : procExe good w = .error .accessDenied := link_eacces w w.exe hd hl
+    simp [exe, this]
+
+/-- **C12_zombie_never_empty_string.** A known zombie whose link cannot be read (any errno) never gets `''`
+    from `cwd()` or `exe()`: the empty string is reserved for live processes. -/
+theorem C12_zombie_never_empty_string (w : World) (hd : w.dirExists = true) (hz : Spec.zombie w = true) :
+    (∀ e, w.cwd = .err e → cwd cfg w ≠ .ok [])
+    ∧ (∀ e, w.exe = .err e → (exe cfg w ⟨none⟩).2 ≠ .ok []) := by
+  rw [cfg_good]
+  constructor
+  · intro e he hc
+    obtain ⟨_, hx⟩ := procExe_ok_inv w w.cwd [] hc
+    rcases hx with ⟨t, ht, _⟩ | ⟨e', _, _, hz', _⟩
+    · rw [he] at ht; cases ht
+    · rw [hz] at hz'; cases hz'
+  · intro e he hc
+    rcases exe_ok_inv w [] hc with ⟨hne, _⟩ | hg | ⟨_, hp⟩
+    · exact hne rfl
+    · exact guessable_ne_nil w [] hg.2.choose_spec.choose_spec.2.2.2 rfl
+    · obtain ⟨_, hx⟩ := procExe_ok_inv w w.exe [] hp
+      rcases hx with ⟨t, ht, _⟩ | ⟨e', _, _, hz', _⟩
+      · rw [he] at ht; cases ht
+      · rw [hz] at hz'; cases hz'
+
+/-! ## a vanishing process: `/proc/<pid>` still listed, its `stat` already gone (psutil #2418) -/
+
+/-- **C12_vanishing_process.** `/proc/<pid>` exists but `/proc/<pid>/stat` does not: ENOENT on the cmdline /
+    environ file means the process is gone — NoSuchProcess, not a bare FileNotFoundError — and so do `name()`
+    and `terminal()`, which read `stat` itself. Specification and code agree. (The test in `wrap_exceptions`
+    must be on `…/<pid>/stat`, not on `…/<pid>`: with the directory test these would be FileNotFoundError;
+    correspondence family `vanishing`.) -/
+theorem C12_vanishing_process (w : World) (hd : w.dirExists = true) (hs : w.statExists = false) :
+    (w.cmdline = .err .enoent →
+        Spec.cmdline w = some (.error .noSuchProcess) ∧ cmdline cfg w = .error .noSuchProcess)
+    ∧ (w.environ = .err .enoent →
+        Spec.environ w = some (.error .noSuchProcess) ∧ environ cfg w = .error .noSuchProcess)
+    ∧ name cfg w = .error .noSuchProcess ∧ terminal w = .error .noSuchProcess := by
+  rw [cfg_good]
+  refine ⟨?_, ?_, ?_, ?_⟩
+  · intro hc
+    have : Spec.cmdline w = some (.error .noSuchProcess) := by
+      simp [Spec.cmdline, hd, hc, fileErr, Spec.zombie, hs]
+    exact ⟨this, cmdline_sound w _ this⟩
+  · intro hc
+    have : Spec.environ w = some (.error .noSuchProcess) := by
+      simp [Spec.environ, hd, hc, fileErr, Spec.zombie, hs]
+    exact ⟨this, environ_sound w _ this⟩
+  · exact name_sound w _ (by simp [Spec.name, hd, hs])
+  · simp [terminal, procTty_eq, hd, hs]
+
+/-- **C12_stat_unreadable.** `stat` is there but cannot be read: `name()` and `terminal()` raise AccessDenied,
+    and the zombie test answers "no" (an empty cmdline is `[]` even if the process is in fact a zombie). -/
+theorem C12_stat_unreadable (w : World) (hd : w.dirExists = true) (hs : w.statExists = true)
+    (hr : w.statReadable = false) :
+    name cfg w = .error .accessDenied ∧ terminal w = .error .accessDenied
+    ∧ (w.cmdline = .data [] → cmdline cfg w = .ok []) := by
+  refine ⟨?_, ?_, ?_⟩
+  · rw [cfg_good]; exact name_sound w _ (by simp [Spec.name, hd, hs, hr])
+  · simp [terminal, procTty_eq, hd, hs, hr]
+  · intro hc
+    rw [C12_cmdline_zombie w hd hc]
+    simp [Spec.zombie, hr]
+
+/-- **C12_link_withheld_unknown_liveness** (characterisation; the specification is silent here). The kernel
+    withholds the link (ENOENT/ESRCH) while `/proc/<pid>` is listed but `stat` is missing or unreadable, so
+    that the process cannot be told live from zombie from vanishing: the code answers `''`, as for a live
+    process — NOT NoSuchProcess, although for `stat` missing the same situation on the cmdline file is reported
+    as NoSuchProcess (`C12_vanishing_process`). -/
+theorem C12_link_withheld_unknown_liveness (w : World) (e : Err) (hd : w.dirExists = true)
+    (hs : w.statExists = false ∨ w.statReadable = false) (he : e ≠ .eacces) :
+    (w.cwd = .err e → Spec.cwd w = none ∧ cwd cfg w = .ok [])
+    ∧ (w.exe = .err e → Spec.link w w.exe = none ∧ procExe cfg w = .ok []) := by
+  rw [cfg_good]
+  have hz : Spec.zombie w = false := by rcases hs with h | h <;> simp [Spec.zombie, h]
+  constructor
+  · intro hl
+    refine ⟨(link_none_iff w w.cwd).2 ⟨hd, Or.inr ⟨e, hl, he, hs⟩⟩, ?_⟩
+    show wrap w (readlinkRaw good w w.cwd) = .ok []
+    rw [hl]; exact link_withheld_not_zombie w e hd hz he
+  · intro hl
+    refine ⟨(link_none_iff w w.exe).2 ⟨hd, Or.inr ⟨e, hl, he, hs⟩⟩, ?_⟩
+    show wrap w (readlinkRaw good w w.exe) = .ok []
+    rw [hl]; exact link_withheld_not_zombie w e hd hz he
+
+/-! ## where the specification is silent — exactly -/
+
+/-- **C12_silent_region.** For a fresh object, the specification says nothing about a call exactly in these
+    situations (`Silent`, Proofs/C12Round3.lean): cmdline()/environ(): ENOENT on the file while `/proc/<pid>`
+    and its `stat` exist and the process is not a known zombie; cwd(): the ` (deleted)` path cannot be examined
+    (stat denied), or the link is withheld while `stat` is missing/unreadable; name(): `stat` readable, name of
+    ≥ 15 bytes, and cmdline() silent; exe(): as cwd() for its link, or the native answer is `''`/AccessDenied
+    and cmdline() is silent; username()/terminal(): never. Everywhere else it speaks. -/
+theorem C12_silent_region (w : World) (c : Call) : Spec.call [] w c = none ↔ Silent w c :=
+  call_nil_none_iff w c
 
 /-! ## every call, every history -/
 
 /-- **C12_call_refines.** After ANY history of calls (any worlds, any order) on one Process
-    object, each of the five calls returns what the specification promises, wherever the
-    specification speaks. -/
+    object, each of the seven calls (cmdline, environ, exe, cwd, name, username, terminal) returns what the
+    specification promises, wherever the specification speaks — and `C12_call_refines_outside_silent` below
+    says exactly where that is. -/
 theorem C12_call_refines (hist : List (World × Call)) (w : World) (c : Call) (o : Out)
     (h : Spec.call (exeWorldsOf hist) w c = some o) :
     (step cfg (runAll cfg St.init hist).1 w c).2 = o := by
@@ -625,6 +833,40 @@ theorem C12_call_refines (hist : List (World × Call)) (w : World) (c : Call) (o
     obtain ⟨r, hr, ho⟩ := h
     rw [← ho]; simp [step, (C12_identity_spec w).2 r hr]
 
+/-- **C12_call_refines_outside_silent.** The same without an option type: if no earlier `exe()` call of the
+    history was made in a world of the explicit silent region and the present call is not in it either
+    (`Silent`, see `C12_silent_region`), the specification names an outcome and the code returns it. -/
+theorem C12_call_refines_outside_silent (hist : List (World × Call)) (w : World) (c : Call)
+    (hh : ∀ w' ∈ exeWorldsOf hist, ¬ Silent w' .exe) (hw : ¬ Silent w c) :
+    ∃ o, Spec.call (exeWorldsOf hist) w c = some o
+      ∧ (step cfg (runAll cfg St.init hist).1 w c).2 = o := by
+  have hnil : ∃ o, Spec.call [] w c = some o := by
+    cases h : Spec.call [] w c with
+    | none => exact absurd ((C12_silent_region w c).1 h) hw
+    | some o => exact ⟨o, rfl⟩
+  have key : ∃ o, Spec.call (exeWorldsOf hist) w c = some o := by
+    cases c with
+    | exe =>
+      obtain ⟨o, ho⟩ := hnil
+      simp only [Spec.call, Spec.exeAfter, Spec.exeMemory, Option.map_map, Option.map_eq_some_iff] at ho ⊢
+      obtain ⟨a, ha, _⟩ := ho
+      cases hm : Spec.exeMemory (exeWorldsOf hist) with
+      | none =>
+        obtain ⟨w', hmem, hsil⟩ := exeMemory_none _ hm
+        exact absurd ((exeOnce_none_iff w').1 hsil) (hh w' hmem)
+      | some m =>
+        cases m with
+        | some v => exact ⟨_, ⟨.ok v, rfl, rfl⟩⟩
+        | none => exact ⟨_, ⟨a.1, by simp [ha], rfl⟩⟩
+    | cmdline => exact hnil
+    | environ => exact hnil
+    | cwd => exact hnil
+    | name => exact hnil
+    | username => exact hnil
+    | terminal => exact hnil
+  obtain ⟨o, ho⟩ := key
+  exact ⟨o, ho, C12_call_refines hist w c o ho⟩
+
 /-! ## the same calls inside `oneshot()` (and therefore via `as_dict()`) -/
 
 /-- **C12_oneshot_same_answers.** Inside a `oneshot()` block every call answers exactly as it
@@ -634,7 +876,7 @@ theorem C12_call_refines (hist : List (World × Call)) (w : World) (c : Call) (o
     particular: an empty block changes no answer, and a warm block in an unchanged world
     changes no answer. -/
 theorem C12_oneshot_same_answers (b : Block) (st : St) (w : World) (c : Call)
-    (hd : w.dirExists = true) :
+    (hd : w.dirExists = true) (hs : w.statExists = true) (hr : w.statReadable = true) :
     stepIn cfg b st w c = step cfg st (b.view w) c
     ∧ stepIn cfg Block.empty st w c = step cfg st w c
     ∧ (b.stat = none ∨ b.stat = some (w.comm, w.tty) → b.uid = none ∨ b.uid = some w.uid →
@@ -651,7 +893,7 @@ theorem C12_oneshot_same_answers (b : Block) (st : St) (w : World) (c : Call)
           = (st, Out.str (name cfg (Block.view ⟨some (n, t), bu⟩ w)))
         unfold nameIn name
         rw [hc]
-        simp [procNameIn, procName, Block.view, hd]
+        simp [procNameIn, procName_eq, Block.view, hd, hs, hr]
     · obtain ⟨bs, bu⟩ := b
       cases bu with
       | none => rfl
@@ -659,7 +901,7 @@ theorem C12_oneshot_same_answers (b : Block) (st : St) (w : World) (c : Call)
     · obtain ⟨bs, bu⟩ := b
       cases bs with
       | none => rfl
-      | some p => obtain ⟨n, t⟩ := p; simp [stepIn, step, terminalIn, terminal, procTtyIn, procTty, Block.view, hd]
+      | some p => obtain ⟨n, t⟩ := p; simp [stepIn, step, terminalIn, terminal, procTtyIn, procTty_eq, Block.view, hd, hs, hr]
   refine ⟨hview, ?_, ?_⟩
   · cases c <;> rfl
   · intro h1 h2
